@@ -33,6 +33,7 @@ def evalE (v : Valuation) : CExpr Rat → Bool
   | .any cs => evalAny v cs
   | .inv c => !(evalE v c)
   | .tracked x op k => cmpOp op (v.tracked x) k
+  | .tracked2 x op y => cmpOp op (v.tracked x) (v.tracked y)
   | .resLevel r op k => vecCmp op (v.levels r) k
 def evalAll (v : Valuation) : List (CExpr Rat) → Bool
   | [] => true
@@ -47,6 +48,7 @@ mutual
 def scalarOnly : CExpr Rat → Bool
   | .resLevel _ _ _ => false
   | .tracked _ op _ => decide (op < 6)
+  | .tracked2 _ op _ => decide (op < 6)
   | .all cs => scalarOnlyL cs
   | .any cs => scalarOnlyL cs
   | .inv c => scalarOnly c
@@ -97,6 +99,7 @@ theorem invert_negates (v : Valuation) : (c c' : CExpr Rat) → scalarOnly c = t
   | .inv (.inv _), _, _, h => by simp [invertNorm] at h
   | .inv (.tracked _ _ _), _, _, h => by simp [invertNorm] at h
   | .inv (.resLevel _ _ _), _, _, h => by simp [invertNorm] at h
+  | .inv (.tracked2 _ _ _), _, _, h => by simp [invertNorm] at h
   | .after t, c', _, h => by
       simp [invertNorm] at h; subst h
       simp only [evalE]
@@ -127,6 +130,10 @@ theorem invert_negates (v : Valuation) : (c c' : CExpr Rat) → scalarOnly c = t
       simp only [evalE]
       exact invert_any v cs cs' (by simpa [scalarOnly] using hs) hcs
   | .tracked x op k, c', hs, h => by
+      simp only [invertNorm, Option.some.injEq] at h; subst h
+      simp only [evalE]
+      exact cmp_inverse_negates op (by simpa [scalarOnly] using hs) _ _
+  | .tracked2 x op y, c', hs, h => by
       simp only [invertNorm, Option.some.injEq] at h; subst h
       simp only [evalE]
       exact cmp_inverse_negates op (by simpa [scalarOnly] using hs) _ _
